@@ -1032,6 +1032,9 @@ fn main() {
         let o = &outcomes[k];
         rep.sample(json!({"point": points[k].to_json(), "outcome": o.fail_phase.clone().unwrap_or_else(|| "ok".into()), "transfers": o.transfers, "ms": o.ms, "shape": o.shape}));
     }
+    if let Some((i, ph, cause, _, _)) = confirmed.first() {
+        rep.sample(json!({"point": points[*i].to_json(), "outcome": format!("VIOLATION phase={ph} cause={cause}"), "shape": outcomes[*i].shape}));
+    }
     rep.assume("both ends bind 127.0.0.1 (bind_ip) — the property is stated for a loopback network; every other RtcConfiguration field not named by the lattice keeps its default on both ends");
     rep.assume("'within the configured timeouts' is judged with a real-time grace (timeouts_ms) far above the ~50 ms a loopback connect takes and below ice_connection_timeout; a failing point is re-run three times outside the bulk pass (strictly one at a time when at most 4 points fail, otherwise at most confirmation_pool single-point runs at a time) and only counts if it fails every time in the same phase");
     rep.assume("'an RTP packet arrives intact': the sender pushes one distinct sample every 20 ms until the peer's receiver track delivers one (RTP is unreliable; the first packets may legitimately be consumed by latching probation or arrive before the receive path is armed); every delivered sample must be byte-equal to a sample pushed on exactly that stream");
